@@ -238,8 +238,11 @@ Definition delete_disk (m : mem) (d : disk) (rem : list (key * oid)) : disk :=
               end in
     Disk (delete x.1 (d_adds a)) ks) d rem.
 
+(* Go iterates the removedCircuits MAP here, i.e. in an unspecified order; the
+   order is only observable if two removed circuits claim the same outgoing
+   key.  The model fixes one order (last removed first). *)
 Definition delete_rollback (m : mem) (rem : list (key * oid)) (cl : list key) : mem :=
-  foldl (fun a x =>
+  foldr (fun x a =>
     let a1 := set_pending (insert x.1 x.2) a in
     let a2 := if bool_decide (x.1 ∈ cl) then set_closed (union {[ x.1 ]}) a1 else a1 in
     match get_obj a2 x.2 with
@@ -499,8 +502,16 @@ Definition snapshot (univ : list key) (m : mem)
 Definition ev_responded (e : event) : option key :=
   match e with
   | (ICall _ (CClose _), _, OCirc v) => Some v.1.1.1
-  | (ICall _ (CFail _), _, OCirc v) => Some v.1.1.1
+  | (ICall _ (CFail ik), _, OCirc _) => Some ik
   | _ => None
+  end.
+
+(* CommitCircuits' memory phase decided Add for these keys (they were not
+   pending); they are returned in Adds iff the batch write then succeeds *)
+Definition ev_add_decided (e : event) : list key :=
+  match e with
+  | (ICall _ (CCommit _), _, OYield (KCommit cr)) => keys_of (c_adds cr)
+  | _ => []
   end.
 
 (* CommitCircuits returned these keys in Adds: the link forwards them *)
